@@ -45,4 +45,4 @@ prop("C16", "other",
      bounded=[B.c16_formats])
 
 NOT_YET = {}
-FIX_COMMITS = ["240c9e2", "ba1006d", "dab453b", "5a0ad53", "5fe75a7", "1c7b42d", "0339f31", "a857da5", "9e872e5", "85d1ad8", "757eca2"]
+FIX_COMMITS = ["240c9e2", "ba1006d", "dab453b", "5a0ad53", "5fe75a7", "1c7b42d", "0339f31", "a857da5", "9e872e5", "85d1ad8", "757eca2", "d1e41a0"]
